@@ -65,12 +65,13 @@ structure CavT (α : Type) where
   t556 : α
   t555 : α
 
-def cavT (k : Consts α) (L V phase freq energy : α) : CavT α :=
+/-- `accel` is the outcome of the whole-tensor test `torch.any(delta_energy > 0)` -/
+def cavTFlag (accel : Bool) (k : Consts α) (L V phase freq energy : α) : CavT α :=
   let rf0 := relFactors energy k.mc2
   let phi := deg2rad k phase
   let dE := V * cos phi
   let t566₀ := 1.5 * L * rf0.igamma2 / cube rf0.beta
-  if ltb 0.0 dE then       -- `if torch.any(delta_energy > 0)` (inside `energy + delta_energy > 0`)
+  if accel then
     let kk := 2.0 * k.pi * freq / k.c
     let rf1 := relFactors (energy + dE) k.mc2
     let g0 := rf0.gamma; let g1 := rf1.gamma; let b0 := rf0.beta; let b1 := rf1.beta
@@ -84,6 +85,10 @@ def cavT (k : Consts α) (L V phase freq energy : α) : CavT α :=
                     / (cube b1 * cube g1 * cube (g0 - g1)) * (sin phi * sin phi)
                   - (g1 * g0 * (b1 * b0 - 1.0) + 1.0) / (b1 * g1 * ((g0 - g1) * (g0 - g1))) * cos phi) }
   else { t566 := t566₀, t556 := 0.0, t555 := 0.0 }
+
+/-- one sample on its own: the flag is that sample's own `delta_energy > 0` -/
+def cavT (k : Consts α) (L V phase freq energy : α) : CavT α :=
+  cavTFlag (ltb 0.0 (V * cos (deg2rad k phase))) k L V phase freq energy
 
 /-- outgoing δ of one particle / of the mean -/
 def cavDelta (k : Consts α) (V phase freq energy tau delta : α) : α :=
